@@ -54,6 +54,10 @@ func checkC19(c *Ctx) {
 	c.Rule("R19.1", "after a successful sink acquisition every error return is preceded by the matching closer; opened sinks are all recorded; closer visits all", 6)
 	c.Rule("R19.7", "a std-log bridge either fails having installed nothing (any level that is not one of the seven) or installs a writer whose every Write reaches the logger, at the level asked for", 22)
 	c.As(map[string]string{"R6.2": "R19.7"}, func() { c6StdBridge(c, "R6.2", c5LevelValues(c)) })
+	if mw := c.Method(CorePath, "multiWriteSyncer", "Write"); mw != nil {
+		c.Rule("R19.8", "every configured destination receives every write: the combined writer Open returns visits all its sinks whatever the earlier ones returned", 2)
+		c.As(map[string]string{"R13.2": "R19.8"}, func() { c13MultiWrite(c, mw) })
+	}
 	c.Rule("R19.2", "redirectStdLogAt: no error return after a log.SetX call; restore closure writes back the values read before the change", 5)
 	c.Rule("R19.3", "file URL: open of exactly u.Path is dominated by the user/fragment/query/port/host rejections", 4)
 	c.Rule("R19.4", "registries: single map store dominated by validity+absence tests, normalised key, under the lock, no error return after it", 10)
